@@ -271,3 +271,5 @@ Theorem parse_value_rest : forall f s v s1 c x,
 Proof. intros f. exact (proj1 (pv_all f)). Qed.
 
 End Value.
+
+Print Assumptions parse_value_rest.
